@@ -17,7 +17,7 @@ func (propC12) Cases(tier string) int {
 	if tier == "thorough" {
 		return 400000
 	}
-	return 25000
+	return 16000
 }
 
 type c12Desc struct {
@@ -60,8 +60,8 @@ func genC12Input(t *simrt.Tape, tier string) c12Input {
 	base := genSentence(t, t.Choose(4) == 3)
 	runes := []rune(base.Text)
 	class := t.Choose(15)
-	if class == 13 && t.Choose(60) != 0 {
-		class = 14 // the huge inputs are expensive (the arrow under a 66 KB line is built quadratically): about one case in 900
+	if class == 13 && t.Choose(200) != 0 {
+		class = 14 // the huge inputs are expensive (the arrow under a 66 KB line is built quadratically): about one case in 3000
 	}
 	switch class {
 	case 0: // prefix
@@ -190,24 +190,7 @@ func genC12Input(t *simrt.Tape, tier string) c12Input {
 		src := strings.ReplaceAll(sh, "%s", tok)
 		return c12Input{Class: "long-token", Src: src, Note: fmt.Sprintf("token of %d bytes", len(tok)), TokenLevel: true}
 	case 13: // an error on or after a very long line, or beyond line 1000
-		switch t.Choose(4) {
-		case 0:
-			long := "\"" + strings.Repeat("x", 66000) + "\""
-			return c12Input{Class: "huge-line", Src: "[" + long + " " + long + "](List)", Note: "two 66 KB literals on one line", TokenLevel: true}
-		case 1:
-			long := "\"" + strings.Repeat("y", 70000) + "\""
-			return c12Input{Class: "huge-line", Src: "[\n    " + long + "\n    1 2\n](List)\n", Note: "error on the line after a 70 KB line", TokenLevel: true}
-		case 2:
-			var b strings.Builder
-			b.WriteString("[\n")
-			for k := 0; k < 1200; k++ {
-				b.WriteString("    1\n")
-			}
-			b.WriteString("    2 3\n](List)\n")
-			return c12Input{Class: "huge-line", Src: b.String(), Note: "error on line 1202", TokenLevel: true}
-		default:
-			return c12Input{Class: "huge-line", Src: "[" + strings.Repeat("1, ", 3000) + "](List)", Note: "error after 6000 tokens", TokenLevel: true}
-		}
+		return hugeLineInput(t.Choose(4))
 	case 12: // a missing end-of-line inside a multi-line sequence (two items on one line)
 		toks := tokenize(base.Text)
 		toks = toks[:len(toks)-1]
@@ -229,6 +212,30 @@ func genC12Input(t *simrt.Tape, tier string) c12Input {
 		}
 		trail := []string{"x", "]", "[", "(List)", "1", "\n\n1", " nil", ","}
 		return c12Input{Class: "trailing-garbage", Src: base.Text + trail[t.Choose(len(trail))], TokenLevel: true}
+	}
+}
+
+// hugeLineInput: the four inputs with an error on or after a very long line, or
+// far into the document.  They are also the first four cases of every batch, so
+// that every run covers them whatever its seed.
+func hugeLineInput(k int) c12Input {
+	switch k {
+	case 0:
+		long := "\"" + strings.Repeat("x", 66000) + "\""
+		return c12Input{Class: "huge-line", Src: "[" + long + " " + long + "](List)", Note: "two 66 KB literals on one line", TokenLevel: true}
+	case 1:
+		long := "\"" + strings.Repeat("y", 70000) + "\""
+		return c12Input{Class: "huge-line", Src: "[\n    " + long + "\n    1 2\n](List)\n", Note: "error on the line after a 70 KB line", TokenLevel: true}
+	case 2:
+		var b strings.Builder
+		b.WriteString("[\n")
+		for k := 0; k < 1200; k++ {
+			b.WriteString("    1\n")
+		}
+		b.WriteString("    2 3\n](List)\n")
+		return c12Input{Class: "huge-line", Src: b.String(), Note: "error on line 1202", TokenLevel: true}
+	default:
+		return c12Input{Class: "huge-line", Src: "[" + strings.Repeat("1, ", 3000) + "](List)", Note: "error after 6000 tokens", TokenLevel: true}
 	}
 }
 
@@ -259,6 +266,9 @@ func stackMutations(t *simrt.Tape, in c12Input) c12Input {
 
 func (propC12) Run(ctx *Ctx, index int) {
 	in := genC12Input(ctx.Prog, ctx.Tier)
+	if index < 4 {
+		in = hugeLineInput(index)
+	}
 	if ctx.Tier == "thorough" && ctx.Prog.Choose(3) == 2 {
 		in = stackMutations(ctx.Prog, in)
 	}
